@@ -239,4 +239,83 @@ impl<'de> SliceReader<'de> {
     }
 //@end
 }
+
+// ---- the two constructors: both sources start alike ----
+/// C14: what `Deserializer::new` is GIVEN by either constructor: a reader that has read nothing, in the initial state with
+/// the default configuration except that empty elements are expanded, the scope invariant, nothing pending, and a
+/// trimmer that trims the first text. (`Deserializer::new` itself is not under contract: this predicate is the
+/// `requires` of its stand-in, so each constructor must PROVE it of the source it builds.)
+pub open spec fn start_ok(inv: bool, st: ReaderState, pending_pop: bool, trim_start: bool) -> bool {
+    &&& inv && !pending_pop && trim_start
+    &&& st.state is Init && st.offset == 0 && st.last_error_offset == 0 && st.opened_buffer@.len() == 0 && st.opened_starts@.len() == 0
+    &&& !st.config.allow_unmatched_ends && !st.config.check_comments && st.config.check_end_names && st.config.expand_empty_elements
+    &&& st.config.trim_markup_names_in_closing_tags && !st.config.trim_text_start && !st.config.trim_text_end
+}
+/// ... which is what both `next` loops need (given input of addressable size, A-size)
+pub proof fn lemma_start_src_ok(inv: bool, st: ReaderState, rem: Seq<u8>)
+    requires start_ok(inv, st, false, true), rem.len() <= usize::MAX,
+    ensures src_ok(inv, st, rem)
+{
+    assert(st.stack() =~= Seq::<Seq<u8>>::empty());
+}
+pub trait EntityResolver {}
+pub trait XmlRead<'i>: Sized {
+    spec fn starts_ok(&self) -> bool;
+}
+impl<'i, R: BufRead> XmlRead<'i> for IoReader<R> {
+    closed spec fn starts_ok(&self) -> bool { start_ok(self.reader.inv(), self.reader.reader.state, self.reader.pending_pop, self.start_trimmer.trim_start) && self.buf@.len() == 0 }
+}
+impl<'de> XmlRead<'de> for SliceReader<'de> {
+    closed spec fn starts_ok(&self) -> bool { start_ok(self.reader.inv(), self.reader.reader.state, self.reader.pending_pop, self.start_trimmer.trim_start) }
+}
+/// stand-in for the serde Deserializer (everything above the event source is outside the contracts)
+pub struct Deserializer<'de, R: XmlRead<'de>, E: EntityResolver> { pub reader: R, pub entity_resolver: E, pub ph: core::marker::PhantomData<&'de ()> }
+impl<'de, R: XmlRead<'de>, E: EntityResolver> Deserializer<'de, R, E> {
+    #[verifier::external_body]
+    pub fn new(reader: R, entity_resolver: E) -> (r: Self)
+        requires reader.starts_ok()
+    { unimplemented!() }
+}
+impl<'de, E> Deserializer<'de, SliceReader<'de>, E>
+where
+    E: EntityResolver,
+{
+//@extract de::Deserializer::from_str_with_resolver | src/de/mod.rs :: impl<'de, E> Deserializer<'de, SliceReader<'de>, E> where E: EntityResolver, :: fn from_str_with_resolver | serves=C14 features=serialize
+ fn from_str_with_resolver(source: &'de str, entity_resolver: E) -> Self {
+        let mut reader = NsReader::from_str(source);
+        let config = reader.config_mut();
+        config.expand_empty_elements = true;
+
+        Self::new(
+            SliceReader {
+                reader,
+                start_trimmer: StartTrimmer::default(),
+            },
+            entity_resolver,
+        )
+    }
+//@end
+}
+impl<'de, R, E> Deserializer<'de, IoReader<R>, E>
+where
+    R: BufRead,
+    E: EntityResolver,
+{
+//@extract de::Deserializer::with_resolver | src/de/mod.rs :: impl<'de, R, E> Deserializer<'de, IoReader<R>, E> where R: BufRead, E: EntityResolver, :: fn with_resolver | serves=C14 features=serialize
+ fn with_resolver(reader: R, entity_resolver: E) -> Self {
+        let mut reader = NsReader::from_reader(reader);
+        let config = reader.config_mut();
+        config.expand_empty_elements = true;
+
+        Self::new(
+            IoReader {
+                reader,
+                start_trimmer: StartTrimmer::default(),
+                buf: Vec::new(),
+            },
+            entity_resolver,
+        )
+    }
+//@end
+}
 }
